@@ -21,6 +21,9 @@ for line in log.splitlines():
     for f in ("patch.diff", "demo.py", "notes.md"):
         if os.path.exists(os.path.join(src, f)):
             shutil.copy(os.path.join(src, f), os.path.join(dst, f))
+    for f in os.listdir(src):   # helper modules a demo imports
+        if f.endswith(".py") and f != "demo.py":
+            shutil.copy(os.path.join(src, f), os.path.join(dst, f))
     mp = os.path.join(dst, "meta.json")
     meta = json.load(open(mp)) if os.path.exists(mp) else {}
     notes = open(os.path.join(src, "notes.md")).read() if os.path.exists(os.path.join(src, "notes.md")) else ""
